@@ -31,12 +31,12 @@ func init() {
 }
 
 type c12Callback struct {
-	got    []string
-	failAt int // index at which the callback returns failErr (-1: never)
-	failErr error
-	calls  int
+	got         []string
+	failAt      int // index at which the callback returns failErr (-1: never)
+	failErr     error
+	calls       int
 	afterReturn int // callbacks after Ingest returned
-	returned bool
+	returned    bool
 }
 
 //go:norace
